@@ -35,19 +35,24 @@ meta = {'property': prop, 'name': name}
 rc, out = run(['/venv/bin/python', '-m', 'pytest', '-q', '-p', 'no:cacheprovider', '--timeout=120', '-q', '--deselect',
                'tests/net/test_tcp.py::test_tcp_lookup_failure'] + tests, wt)
 meta['tests_with_change'] = {'cmd': 'pytest ' + ' '.join(tests), 'rc': rc, 'tail': out.strip().splitlines()[-1] if out.strip() else ''}
-# 2. apply to /repo
-assert run(['git', 'status', '--porcelain', '--', 'circuits'], '/repo')[1].strip() == '', '/repo not clean'
-rc, out = run(['git', 'apply', os.path.join(dst, 'patch.diff')], '/repo')
-assert rc == 0, out
+# 2. apply the change to a scratch COPY of /repo's current tree (outside /repo and /verif) and run the checks against the copy
+#    (PYVC_REPO): equivalent to `git -C /repo apply` + check + `git -C /repo checkout -- .`, without disturbing /repo meanwhile
+import tempfile
+scratch = tempfile.mkdtemp(prefix='seed_eval_')
 try:
+    shutil.copytree('/repo/circuits', os.path.join(scratch, 'circuits'))
+    rc, out = run(['patch', '-p1', '--no-backup-if-mismatch', '-d', scratch, '-i', os.path.join(dst, 'patch.diff')], '/verif')
+    assert rc == 0, out
     meta['check_with_change'] = {}
+    env_cmd = ['env', 'PYVC_REPO=' + scratch]
     for pr in prop.split(','):
-        rc, out = run(['bin/check', pr, '--no-evidence'], '/verif', 3000)
-        lines = [l for l in out.splitlines() if l.startswith(('VIOLATION', 'failed obligation', 'UNDECIDED', 'CHECKER', pr + ':'))]
-        meta['check_with_change'][pr] = {'cmd': 'bin/check %s' % pr, 'rc': rc, 'violations': [l[:260] for l in lines if l.startswith(('VIOLATION', 'failed'))][:8],
+        rc, out = run(env_cmd + ['bin/check', pr, '--no-evidence'], '/verif', 3000)
+        lines = [l for l in out.splitlines() if l.startswith(('VIOLATION', 'failed obligation', 'UNDECIDED', 'CHECKER', pr + ':', 'undecided obligations'))]
+        meta['check_with_change'][pr] = {'cmd': 'PYVC_REPO=<copy of /repo with the patch> bin/check %s' % pr, 'rc': rc,
+                                         'violations': [l[:260].replace(scratch, '<copy>') for l in lines if l.startswith(('VIOLATION', 'failed', 'undecided'))][:8],
                                          'summary': lines[-1] if lines else ''}
 finally:
-    run(['git', 'checkout', '--', '.'], '/repo')
+    shutil.rmtree(scratch, ignore_errors=True)
 # demo in the scratch worktree it was written for: with the change, then without (git stash), then restored
 rc, out = run(['/venv/bin/python', 'SEED/demo.py'], wt, 300)
 meta['demo_with_change'] = {'cmd': 'cd <worktree> && /venv/bin/python SEED/demo.py', 'rc': rc, 'tail': out.strip().splitlines()[-3:]}
